@@ -406,3 +406,137 @@ def translate_types_module():
 
 if __name__ == "__main__":
     print(translate_types_module())
+
+
+# ----------------------------------------------------------------------------- value encoders of results.py
+class FieldEnc(Enc):
+    """encoders over the fields of a date / datetime / timedelta value: `val.<field>` becomes a parameter, isinstance
+    tests are decided by the specialisation, `b"".join([...])`, chained comparisons, divmod and nested ifs are translated"""
+
+    def __init__(self, sigs, fields, isinstance_facts):
+        super().__init__(sigs)
+        self.fields = fields            # attribute name -> parameter name
+        self.facts = isinstance_facts   # unparse(isinstance test) -> bool
+
+    def expr(self, n, env):
+        if isinstance(n, ast.Attribute) and isinstance(n.value, ast.Name) and n.value.id == "val" and n.attr in self.fields:
+            return self.fields[n.attr], "nat"
+        if isinstance(n, ast.Compare) and len(n.ops) > 1 and all(isinstance(o, ast.Eq) for o in n.ops):
+            items = [self.expr(x, env) for x in [n.left] + n.comparators]
+            if any(t != "nat" for _, t in items):
+                raise Untranslatable("chained comparison of non-integers")
+            return "(" + " ∧ ".join("%s = %s" % (items[i][0], items[i + 1][0]) for i in range(len(items) - 1)) + ")", "bool"
+        if isinstance(n, ast.Call) and isinstance(n.func, ast.Attribute) and n.func.attr == "join" and isinstance(n.func.value, ast.Constant) \
+                and n.func.value.value == b"" and len(n.args) == 1 and isinstance(n.args[0], ast.List):
+            items = [self.expr(x, env) for x in n.args[0].elts]
+            if any(t != "bytes" for _, t in items):
+                raise Untranslatable("join of non-bytes")
+            return "(" + " ++ ".join(a for a, _ in items) + ")", "bytes"
+        return super().expr(n, env)
+
+    def decide(self, test):
+        u = ast.unparse(test)
+        if u in self.facts:
+            return self.facts[u]
+        return None
+
+    def block(self, stmts, env, indent):
+        """a block that ends by returning on every path"""
+        pad = "  " * indent
+        if not stmts:
+            raise Untranslatable("block falls off its end")
+        s, rest = stmts[0], stmts[1:]
+        if isinstance(s, ast.Expr) and isinstance(s.value, ast.Constant):
+            return self.block(rest, env, indent)
+        if isinstance(s, ast.Return):
+            e, t = self.expr(s.value, env)
+            if t != "bytes":
+                raise Untranslatable("encoder returns " + t)
+            return pad + e
+        if isinstance(s, ast.Assign):
+            # val = abs(val) / val = datetime.fromtimestamp(val): the value object itself is abstract here
+            if len(s.targets) == 1 and isinstance(s.targets[0], ast.Name) and s.targets[0].id == "val":
+                return self.block(rest, env, indent)
+            # a, b = divmod(x, k)
+            if len(s.targets) == 1 and isinstance(s.targets[0], ast.Tuple) and isinstance(s.value, ast.Call) and isinstance(s.value.func, ast.Name) \
+                    and s.value.func.id == "divmod" and len(s.targets[0].elts) == 2:
+                x, tx = self.expr(s.value.args[0], env)
+                k, tk = self.expr(s.value.args[1], env)
+                a, b = [e.id for e in s.targets[0].elts]
+                env2 = dict(env)
+                env2[a] = env2[b] = "nat"
+                return pad + "let %s := %s / %s\n" % (a, x, k) + pad + "let %s := %s %% %s\n" % (b, x, k) + self.block(rest, env2, indent)
+            # is_negative = val < timedelta(0): a fact about the abstract value, supplied as a parameter
+            if len(s.targets) == 1 and isinstance(s.targets[0], ast.Name) and isinstance(s.value, ast.Compare) and "timedelta" in ast.unparse(s.value):
+                if s.targets[0].id not in env:
+                    raise Untranslatable("sign test assigned to a name that is not a parameter")
+                return self.block(rest, env, indent)
+            # x = y = z = expr
+            e, t = self.expr(s.value, env)
+            env2 = dict(env)
+            out = ""
+            for tg in s.targets:
+                if not isinstance(tg, ast.Name):
+                    raise Untranslatable("assignment target " + ast.dump(tg))
+                if tg.id in self.fields.values():
+                    # re-binding of a field parameter (year = val.year): identity
+                    if e != tg.id:
+                        out += pad + "let %s := %s\n" % (tg.id, e)
+                else:
+                    out += pad + "let %s := %s\n" % (tg.id, e)
+                env2[tg.id] = t
+            return out + self.block(rest, env2, indent)
+        if isinstance(s, ast.If):
+            d = self.decide(s.test)
+            if d is True:
+                return self.block(list(s.body) + ([] if self.returns(s.body) else rest), env, indent)
+            if d is False:
+                return self.block(list(s.orelse) + rest, env, indent)
+            c, tc = self.expr(s.test, env)
+            if tc != "bool":
+                raise Untranslatable("condition of type " + tc)
+            if not self.returns(s.body):
+                raise Untranslatable("if-branch that does not return")
+            els = list(s.orelse) + rest if not (s.orelse and self.returns(s.orelse)) else list(s.orelse)
+            return pad + "if %s then\n" % c + self.block(list(s.body), env, indent + 1) + "\n" + pad + "else\n" + self.block(els, env, indent + 1)
+        raise Untranslatable("statement " + ast.dump(s)[:200])
+
+    def returns(self, stmts):
+        if not stmts:
+            return False
+        last = stmts[-1]
+        if isinstance(last, ast.Return):
+            return True
+        if isinstance(last, ast.If) and last.orelse:
+            return self.returns(last.body) and self.returns(last.orelse)
+        return False
+
+
+def translate_results_encoders():
+    """→ Lean source of namespace Mimic.Extracted.ResultsCode: _binary_encode_date (datetime and date specialisations)
+    and _binary_encode_timedelta as functions of the value's fields"""
+    from mysql_mimic import results as R
+    tree = ast.parse(inspect.getsource(R))
+    fn = {n.name: n for n in tree.body if isinstance(n, ast.FunctionDef)}
+    sigs = {"uint_1": (["nat"], "bytes"), "uint_2": (["nat"], "bytes"), "uint_4": (["nat"], "bytes")}
+    out = ["-- GENERATED by harness/extract.py (harness/pytrans.py) from /repo/mysql_mimic/results.py — do not edit",
+           "import Mimic.Py", "import Mimic.Extracted.Types", "namespace Mimic.Extracted.ResultsCode", "open Mimic.Py Mimic.Extracted.Types", ""]
+    # datetime value
+    dt_fields = {k: k for k in ("year", "month", "day", "hour", "minute", "second", "microsecond")}
+    f = fn["_binary_encode_date"]
+    e = FieldEnc(sigs, dt_fields, {"isinstance(val, (float, int))": False, "isinstance(val, datetime)": True})
+    env = {k: "nat" for k in dt_fields}
+    out.append("/-- `_binary_encode_date` for a `datetime` value -/\ndef binary_encode_datetime (year month day hour minute second microsecond : Nat) : Bytes :=\n"
+               + e.block(f.body, env, 1) + "\n")
+    e = FieldEnc(sigs, {k: k for k in ("year", "month", "day")}, {"isinstance(val, (float, int))": False, "isinstance(val, datetime)": False})
+    env = {k: "nat" for k in ("year", "month", "day")}
+    out.append("/-- `_binary_encode_date` for a `date` value -/\ndef binary_encode_date (year month day : Nat) : Bytes :=\n" + e.block(f.body, env, 1) + "\n")
+    # timedelta value: abs(val).days / .seconds / .microseconds and the sign
+    f = fn["_binary_encode_timedelta"]
+    td_fields = {"days": "days", "seconds": "seconds", "microseconds": "microseconds"}
+    e = FieldEnc(sigs, td_fields, {})
+    env = {"days": "nat", "seconds": "nat", "microseconds": "nat", "is_negative": "nat"}
+    out.append("/-- `_binary_encode_timedelta`: fields of `abs(val)` and the sign (0 / 1) -/\n"
+               "def binary_encode_timedelta (is_negative days seconds microseconds : Nat) : Bytes :=\n" + e.block(f.body, env, 1) + "\n")
+    out.append("end Mimic.Extracted.ResultsCode")
+    return "\n".join(out) + "\n"
